@@ -114,3 +114,32 @@ def at_index(x, idx):
 def depth_ref():
     d = dsv("depth")
     return op("where", op("isnull", d), sp.oo, d)
+
+
+# ---------------------------------------------------------------------------- dispersion
+LD = "wavetheory.lineardispersion."
+
+
+def identity_hooks(it: Interp):
+    """atleast_1d is value preserving (shape only)."""
+    it.hooks["wavetheory.wavetheory_tools.atleast_1d"] = lambda _it, f, a, k, e, n: a[0]
+    it.hooks["wavetheory.wavetheory_tools.atleast_2d"] = lambda _it, f, a, k, e, n: a[0]
+    return it
+
+
+def omega_ref(k, d, g):
+    return sp.sqrt(g * k * sp.tanh(k * d))
+
+
+def ratio_ref(k, d):
+    kd = k * d
+    return op("where", CMP("gt", kd, sp.Integer(5)), sp.Rational(1, 2), sp.Rational(1, 2) + kd / sp.sinh(2 * kd))
+
+
+def erase_broadcast(t):
+    """x * ones(shape) only broadcasts; the values are x."""
+    def fn(n):
+        if fname(n) == "ones":
+            return sp.Integer(1)
+        return None
+    return T.rewrite(t, fn)
